@@ -174,7 +174,7 @@ def handle2 : Handler := fun op args =>
       | .error e => some ("err " ++ e.tag)
   | _, _ => none
 
-def handle : Handler := fun op args =>
+def handleCore : Handler := fun op args =>
   match op, args with
   | "split", [t, c] => do
     let t ← parseNat? t; let c ← parseNat? c
@@ -228,5 +228,13 @@ def handle : Handler := fun op args =>
     | .ok () => some "ok"
     | .error e => some ("err " ++ showVErr e)
   | _, _ => handle2 op args
+
+/-- `services_then <op> <args…>`: the harness first exercises the library's own service layer (imports every provider module,
+asks the chain.so provider for spendables through a canned HTTP reply) in the same process, then evaluates `<op>`; the
+conversions do not depend on what the process did before, so the model's answer is that of `<op>` alone -/
+def handle : Handler := fun op args =>
+  match op, args with
+  | "services_then", op' :: args' => handleCore op' args'
+  | _, _ => handleCore op args
 
 end Pycoin.Driver.C13
